@@ -59,6 +59,15 @@ def covering_pool(r, n):
             # dedupe keys
             d = {(a, bb, c): v for a, bb, c, v in e}
             pool.append([(a, bb, c, v) for (a, bb, c), v in d.items()])
+    # the same (behaviour, name, value) in scope "all" and in narrower scopes: every one of them is a file of its own
+    for beh in envmodel.BEHAVIOURS:
+        nm, v = r.choice(NAME_CLASSES["plain"]), r.choice([b"v", b"a:b", b":"])
+        e = [(sc, beh, nm, v) for sc in ("all", "build", "launch", "process:web")]
+        if beh in ("append", "prepend"):
+            e += [(sc, "delim", nm, b":") for sc in ("all", "build", "launch", "process:web")]
+        pool.append(e)
+    # a name that ends in the suffix of its own behaviour ("app.append" appended): the file is app.append.append
+    pool.append([("all", b, b"app." + b.encode(), b"x") for b in envmodel.BEHAVIOURS] + [("build", "append", b"app", b"y"), ("all", "append", b"app", b"z")])
     for _ in range(max(2, n // 50)):
         pool.append(gen_large_env(r))
     while len(pool) < n:
